@@ -40,6 +40,9 @@ type Concrete struct {
 	MutDesc string `json:"mutdesc,omitempty"`
 	Soft    bool   `json:"soft,omitempty"` // the concrete string is a borderline member of its class: creation allowed, not required
 	ObjVar  int    `json:"objvar,omitempty"`
+	// FullScan: list /tmp, /, /var and the sandbox completely (instead of probing
+	// for the components of the sent path only) at every observation point
+	FullScan bool `json:"fullscan,omitempty"`
 }
 
 var leafVariants = map[string][]string{
